@@ -12,15 +12,19 @@ THM = ["YaraModel.Thm.C14"]
 MANIFEST = dict(
     technique="Lean 4 proof about an executable model of the block walker, CRC table, digest cache, histogram statistics and strtoll "
               "+ translator T6 (crc32_tab regenerated from hash.c) + exhaustive small-buffer correspondence against the real modules",
-    text="proof: Thm/C14.lean proves for all block lists / byte strings / call sequences: the shared range walker returns exactly "
-         "buf[off, min(off+len,size)) on one block and none outside it, adjacent non-empty blocks behave like their concatenation and a "
-         "gap gives undefined; every entry of the regenerated crc32_tab equals the bitwise reflected CRC-32 (0xEDB88320) of its index and "
-         "the table-driven loop equals the bitwise definition; checksum32 = sum mod 2^32; the digest cache is transparent (any sequence of "
-         "md5/sha1/sha256 calls in one scan returns what a fresh computation returns); histogram mean/deviation/count/percentage/mode equal "
-         "their definitions over the addressed bytes; serial correlation and Monte-Carlo pi equal their definitions on ONE block "
-         "(partial: the code restarts per block). Sampled only: the digest primitives (OpenSSL vs hashlib), IEEE evaluation "
-         "(tolerance 1e-9 rel / 1e-12 abs; math.percentage is single precision: 2^-22), strtoll (model of the glibc grammar, compared on "
-         "generated strings), to_string, min/max/abs, the argument passing through compiler and VM.",
+    text="proof: Thm/C14.lean (30 theorems, re-checked every run) proves for ALL block lists / byte strings / offsets / lengths / call "
+         "sequences: the range walker shared by hash.c and math.c returns exactly buf[off, min(off+len,size)) on one block and undefined "
+         "outside it (rangeWalk_single), equals the memory-map specification on every ascending layout of non-empty blocks "
+         "(rangeWalk_eq_addressedMem; rangeWalk_contig, rangeWalk_gap, rangeWalk_skip) except the zero-length range at an inner block "
+         "boundary (rangeWalk_boundary_zero_length, finding F19); every entry of crc32_tab (regenerated from hash.c by translator T6) equals the "
+         "bitwise reflected CRC-32 (0xEDB88320) of its index and the table-driven loops equal the bitwise definition (crc32_table, crc32_fold, "
+         "crc32_data); checksum32 = sum mod 2^32; the digest cache is transparent for every call sequence (cache_transparent); histogram "
+         "mean/deviation/count/percentage/mode equal their definitions over the addressed bytes; the string statistics equal the definitions "
+         "when bytes are read unsigned and, with the signed char of the code, exactly on 7-bit strings. PARTIAL: serial correlation and "
+         "Monte-Carlo pi equal their definitions only when ONE block serves the range (finding F17). SAMPLED only (correspondence): the "
+         "digest primitives (OpenSSL vs hashlib), IEEE evaluation (tolerance 1e-9 rel / 1e-12 abs; math.percentage is single precision: "
+         "2^-22; entropy via Lean Float), strtoll (model of the glibc grammar; proved: result in int64, base guard), to_string, min/max "
+         "(proved = min/max on non-negative arguments), abs, argument passing through compiler and VM.",
     design_ref="DESIGN.md §5 C14, translator T6 (§2.2)",
     note=core.TB + "Digest primitives are parameters of the model. offset+length >= 2^63 and math.abs(INT64_MIN) are undefined behaviour "
                    "in C and are exercised in separate processes. Unreadable blocks (fetch_data == NULL) are outside the model.")
